@@ -412,6 +412,7 @@ def run_backend(case, backend, prog_fns):
   except Exception as ex:  # pylint: disable=broad-except
     o['err'] = 'E' + type(ex).__name__
     o['err_text'] = ''.join(traceback.format_exception_only(type(ex), ex)).strip()[:300]
+  o['disable_jit_leaked'] = bool(jax.config.jax_disable_jit)     # informational (outside the property's wording)
   after = container_snapshot(shared, clients)
   bd = dict(before)
   for name, v in after:
@@ -453,10 +454,39 @@ def run_case(case):
   order = case.get('order') or ['jit', 'debug', 'pmap']
   res, first = {}, None
   for be in order:
-    o, f, inputs = run_backend(case, be, prog_fns)
+    o, f, inputs = _in_fresh_thread(run_backend, case, be, prog_fns)
     res[be] = o
     if first is None:
       first = (be, f, inputs)
+  _in_fresh_thread(_recheck_first, case, res, first, wsr)
+  return res
+
+
+def _in_fresh_thread(fn, *args):
+  """Runs fn in a new thread and returns its value.  jax's thread-local configuration
+  (jax.disable_jit() entered by the debug backend's generator) can be left switched on when
+  two debug-backend iterators are consumed interleaved (observed on /repo, reported as
+  `disable_jit_leaked`); a fresh thread per backend call keeps that from turning every
+  later jit-backend call of this worker into an un-jitted one."""
+  box = []
+
+  def target():
+    try:
+      box.append(('ok', fn(*args)))
+    except BaseException as ex:  # pylint: disable=broad-except
+      box.append(('err', ex))
+  th = threading.Thread(target=target, daemon=True)
+  th.start()
+  th.join()
+  kind, v = box[0]
+  if kind == 'err':
+    raise v
+  return v
+
+
+def _recheck_first(case, res, first, wsr):
+  import numpy as np
+  import jax
   be, f, (shared, clients) = first
   if f is not None and not res[be]['err']:
     try:
@@ -470,7 +500,6 @@ def run_case(case):
       res[be]['first_built'] = 'same' if same else 'differs'
     except Exception as ex:  # pylint: disable=broad-except
       res[be]['first_built'] = 'raises E' + type(ex).__name__
-  return res
 
 
 # --------------------------------------------------------------------------
